@@ -477,6 +477,12 @@ class Builder:
         mrecv = re.match(r"\(\s*mut\s+self\b", m[ps0:hdr_end])
         if mrecv:
             edits.append(Edit(ps0, ps0 + mrecv.end(), [Seg("(self", "repo", fn=qual)]))
+        # ---- R3c: `_: T` function parameters -> named, unused
+        pclose = rs.match_close(m, ps0)
+        for k, mm in enumerate(re.finditer(r"(?<=[(,])(\s*)_(\s*):", m[ps0:pclose])):
+            edits.append(Edit(ps0 + mm.start() + len(mm.group(1)), ps0 + mm.start() + len(mm.group(1)) + 1,
+                              [Seg("_vx_p%d" % k, "repo", fn=qual)]))
+            self.count("R3c")
         if external_body:
             edits.append(Edit(it.body_open + 1, b - 1, [Seg(" unimplemented!() ", "unit", fn=qual)]))
             self.emit_with_edits(rel, src, a, b, edits, fn=qual)
@@ -537,7 +543,10 @@ class Builder:
                     self.report.setdefault("dropped_contract_pieces", []).append("%s assert#%s (no longer type-checks)" % (qual, cl.label or meth))
                     fnrec["clauses"].append({"id": "assert#%s" % (cl.label or meth), "kind": "dropped", "tags": cl.tags, "text": cl.text})
                     continue
-                mm = re.search(r"\.\s*" + re.escape(meth) + r"\s*\(", m[body[0]:body[1]])
+                if "::" in meth:  # a path call such as `Cursor::new(`
+                    mm = re.search(r"(?<![A-Za-z0-9_])" + re.escape(meth) + r"\s*\(", m[body[0]:body[1]])
+                else:
+                    mm = re.search(r"\.\s*" + re.escape(meth) + r"\s*\(", m[body[0]:body[1]])
                 if not mm:
                     self.report.setdefault("lost_assert_anchors", []).append("%s after .%s(" % (qual, meth))
                     continue
@@ -806,6 +815,8 @@ class Builder:
             if rule[0] == "R4d":
                 # slice.try_into().unwrap() producing an array -> trusted wrapper whose precondition is the length
                 for mm in re.finditer(r"\.\s*try_into\s*\(\s*\)\s*\.\s*unwrap\s*\(\s*\)", m[a:b]):
+                    if any(e.a <= a + mm.start() and a + mm.end() <= e.b for e in edits):
+                        continue  # already consumed by R4 (`uN::from_xx_bytes(E.try_into().unwrap())`)
                     edits.append(Edit(a + mm.start(), a + mm.end(), [Seg(".vx_into_arr()", "repo", fn=qual)]))
                     self.count("R4d")
             if rule[0] == "R4c":
@@ -830,6 +841,16 @@ class Builder:
                         continue
                     edits.append(Edit(a + mm.start() + len(mm.group(1)), a + mm.end(), [Seg(".to_string()", "repo", fn=qual)]))
                     self.count("R16")
+            if rule[0] == "R18":
+                # `E.then(|| BODY)` -> `(if E { Some(BODY) } else { None })`  (the definition of bool::then)
+                for mm in re.finditer(r"\.\s*then\s*\(\s*\|\s*\|", m[a:b]):
+                    op = a + mm.start() + m[a + mm.start():a + mm.end()].index("(")
+                    cp = rs.match_close(m, op)
+                    k = chain_start(m, a, a + mm.start())
+                    edits.append(Edit(k, k, [Seg("(if ", "repo", fn=qual)]))
+                    edits.append(Edit(a + mm.start(), a + mm.end(), [Seg(" { Some(", "repo", fn=qual)]))
+                    edits.append(Edit(cp, cp + 1, [Seg(") } else { None })", "repo", fn=qual)]))
+                    self.count("R18")
             if rule[0] == "R14":
                 # `let P = E?;` where E ends in a call of a listed method: desugar `?` (Rust reference desugaring)
                 for meth in rule[1:]:
@@ -839,41 +860,7 @@ class Builder:
                         if not t:
                             continue
                         q = cp + 1 + t.end() - 1  # index of '?'
-                        # start of the operand: walk back over the postfix chain `a.b(..).c::d(..)`
-                        k = a + mm.start()
-                        while True:
-                            j = k
-                            while j > a and m[j - 1] in " \t\n":
-                                j -= 1
-                            if j > a and m[j - 1] in ")]":
-                                depth = 0
-                                while j > a:
-                                    j -= 1
-                                    if m[j] in ")]":
-                                        depth += 1
-                                    elif m[j] in "([":
-                                        depth -= 1
-                                        if depth == 0:
-                                            break
-                                # optional callee name / generic args before the bracket
-                                while j > a and (m[j - 1].isalnum() or m[j - 1] == "_"):
-                                    j -= 1
-                            elif j > a and (m[j - 1].isalnum() or m[j - 1] == "_"):
-                                while j > a and (m[j - 1].isalnum() or m[j - 1] == "_"):
-                                    j -= 1
-                            else:
-                                break
-                            k = j
-                            jj = k
-                            while jj > a and m[jj - 1] in " \t\n":
-                                jj -= 1
-                            if jj > a and m[jj - 1] == ".":
-                                k = jj - 1
-                                continue
-                            if jj > a + 1 and m[jj - 2:jj] == "::":
-                                k = jj - 2
-                                continue
-                            break
+                        k = chain_start(m, a, a + mm.start())
                         edits.append(Edit(k, k, [Seg("(match ", "repo", fn=qual)]))
                         edits.append(Edit(q, q + 1, [Seg(" { Ok(vx_v) => vx_v, Err(vx_e) => return Err(vx_e.into()) })", "repo", fn=qual)]))
                         self.count("R14")
@@ -916,6 +903,45 @@ class Builder:
                     rec["fn"] = s.fn
             linemap.append(rec)
         return text, linemap
+
+
+def chain_start(m, a, pos):
+    """Start of the postfix chain `x.b(..).c::d(..)` whose next link begins at `pos` (a `.`), not before `a`."""
+    k = pos
+    while True:
+        j = k
+        while j > a and m[j - 1] in " \t\n":
+            j -= 1
+        if j > a and m[j - 1] in ")]":
+            depth = 0
+            while j > a:
+                j -= 1
+                if m[j] in ")]":
+                    depth += 1
+                elif m[j] in "([":
+                    depth -= 1
+                    if depth == 0:
+                        break
+            # optional callee name / generic args before the bracket
+            while j > a and (m[j - 1].isalnum() or m[j - 1] == "_"):
+                j -= 1
+        elif j > a and (m[j - 1].isalnum() or m[j - 1] == "_"):
+            while j > a and (m[j - 1].isalnum() or m[j - 1] == "_"):
+                j -= 1
+        else:
+            break
+        k = j
+        jj = k
+        while jj > a and m[jj - 1] in " \t\n":
+            jj -= 1
+        if jj > a and m[jj - 1] == ".":
+            k = jj - 1
+            continue
+        if jj > a + 1 and m[jj - 2:jj] == "::":
+            k = jj - 2
+            continue
+        break
+    return k
 
 
 def it_name(it):
